@@ -189,6 +189,13 @@ def run_case(ctx, case):
     rng = np.random.default_rng(case['aseed'])
     L0, sp = int(case['L']), float(case['sp'])
     d = Domain(length=L0, dr=sp) if case['ctor'] == 'dr' else Domain(length=L0, dk=sp)
+    if case['aseed'] % 3 == 0 and len(d.r) == L0 and len(d.k) == L0 and L0 <= 1024:
+        # the Domain has already been USED (array and MatrixArray transforms) before it is re-configured
+        m0 = MatrixArray(length=L0, rank=2, data=np.ones((L0, 2, 2)), space=Space.Real, types=['A', 'B'])
+        d.MatrixArray_to_fourier(m0)
+        d.MatrixArray_to_real(m0)
+        d.to_real(d.to_fourier(np.ones(L0)))
+        ctx.hook('used_before_reconfiguration')
     for op, val in case['ops']:
         setattr(d, op, int(val) if op == 'length' else float(val))
     L = d.length
@@ -240,8 +247,32 @@ def run_case(ctx, case):
         types = list('ABCD')[:rank]
         data = rng.normal(size=(L, rank, rank))
         data = data + np.transpose(data, (0, 2, 1))
-        for space, fwd, bwd, one in ((Space.Real, d.MatrixArray_to_fourier, d.MatrixArray_to_real, d.to_fourier),
-                                     (Space.Fourier, d.MatrixArray_to_real, d.MatrixArray_to_fourier, d.to_real)):
+        # a transform attempt that fails (array of another length) must leave flag and data alone
+        if L > 1:
+            bad = MatrixArray(length=L - 1, rank=rank, data=np.ones((L - 1, rank, rank)), space=Space.Real, types=types)
+            try:
+                d.MatrixArray_to_fourier(bad)
+            except Exception:   # noqa
+                ctx.hook('failed_transform_attempt')
+                if bad.space != Space.Real or not np.array_equal(bad.data, np.ones((L - 1, rank, rank))):
+                    ctx.violation('ma-failed-transform-changed-array', 'a transform attempt that raised left the MatrixArray with flag %s / modified data' % bad.space)
+        # stacked 2-D input: every row is transformed like a 1-D array
+        stack = rng.normal(size=(3, L))
+        for nm, T in (('to_fourier', d.to_fourier), ('to_real', d.to_real)):
+            try:
+                got2 = np.asarray(T(np.array(stack)))
+            except Exception:   # noqa - 2-D input is not documented; only a silent wrong answer is judged
+                continue
+            want2 = np.array([T(np.array(row)) for row in stack])
+            if got2.shape == want2.shape and not np.allclose(got2, want2, rtol=1e-10, atol=1e-12 * np.abs(want2).max()):
+                ctx.violation('stacked-input-differs-from-rows', '%s of a (3,%d) array differs from transforming its rows one by one' % (nm, L))
+        spaces3 = ((Space.Real, d.MatrixArray_to_fourier, d.MatrixArray_to_real, d.to_fourier),
+                   (Space.Fourier, d.MatrixArray_to_real, d.MatrixArray_to_fourier, d.to_real))
+        if case['aseed'] % 5 == 0:
+            # an array flagged NonSpatial (e.g. the product of a density array with h) may be sent either way: the DIRECTION asked for decides
+            spaces3 = spaces3 + ((Space.NonSpatial, d.MatrixArray_to_fourier, d.MatrixArray_to_real, d.to_fourier),
+                                 (Space.NonSpatial, d.MatrixArray_to_real, d.MatrixArray_to_fourier, d.to_real))
+        for space, fwd, bwd, one in spaces3:
             layout = ['c', 'fortran', 'transposed_build', 'slice_of_larger'][case['aseed'] % 4]
             if layout == 'c':
                 arr = np.array(data)
@@ -255,7 +286,7 @@ def run_case(ctx, case):
             ctx.count('matrixarray_layout', layout)
             fwd(m)
             ctx.hook('matrixarray')
-            other = Space.Fourier if space == Space.Real else Space.Real
+            other = (Space.Fourier if space == Space.Real else Space.Real) if space != Space.NonSpatial else (Space.Fourier if fwd == d.MatrixArray_to_fourier else Space.Real)
             if m.space != other:
                 ctx.violation('ma-flag-not-flipped', 'space flag is %s after transforming from %s' % (m.space, space))
             md = np.asarray(m.data)
@@ -279,7 +310,7 @@ def run_case(ctx, case):
                 pass
             bwd(m)
             e = np.abs(np.asarray(m.data) - data).max() / (tolscale * np.abs(data).max())
-            if m.space != space or not (e <= 1):
+            if m.space != (space if space != Space.NonSpatial else (Space.Real if bwd == d.MatrixArray_to_real else Space.Fourier)) or not (e <= 1):
                 ctx.violation('ma-roundtrip', 'MatrixArray round trip err/tol=%.3g flag=%s (rank %d, L=%d)' % (e, m.space, rank, L))
     ctx.nontrivial([case['ctor'], L0, sp, case['ops'], case['arr'], case['rank']])
     ctx.count('ctor', case['ctor'])
